@@ -27,7 +27,9 @@ RULE = ("marble strings rendered from generated token lists (ticks, single- and 
         "syntax, groups with empty/terminal/odd items, '|', '#', top-level commas) with spaces inserted at random positions, plus a "
         "malformed stream of raw strings over the alphabet (unbalanced parentheses, numeric look-alikes); integer timespans/shifts "
         "(negative included for parse; a third of the cases pass timespan/shift/duetime as float, timedelta or absolute datetime in quarter "
-        "seconds incl. fractional, multi-day and negative shifts), lookups keyed by strings/ints/floats, raise_stopped on/off; real parse vs the Lean scanner, "
+        "seconds incl. fractional, multi-day and negative shifts), lookups keyed by strings/ints/floats and given as several mapping kinds (dict, defaultdict, Counter, dict subclass with __missing__, "
+        "MappingProxyType, UserDict; the caller's mapping must stay unchanged), from_marbles with the scheduler at subscribe level, at operator "
+        "level, and at both (the operator-level one must win), raise_stopped on/off; real parse vs the Lean scanner, "
         "from_marbles/hot recordings on TestScheduler vs the model's delivery (hot() also called at non-zero clocks: after advance_to, from inside a "
         "scheduled action, on a HistoricalScheduler with an arbitrary start; due time as float, timedelta or absolute datetime), and the testing context marbles_testing(): exp / start(cold) / "
         "start(hot) with lookup and error arguments. non-trivial = the string has a group, a "
@@ -166,6 +168,15 @@ def _cases(rng, tier):
 
 
 def cases(rng, tier):
+    for c in _cases_all(rng, tier):
+        if c["lookup"]:
+            c["lk_kind"] = rng.choice(LK_KINDS)
+        if c["op"] == "marbles_cold":
+            c["sched_mode"] = rng.choice(["subscribe", "operator", "both", "both"])
+        yield c
+
+
+def _cases_all(rng, tier):
     yield from _cases_units(rng, tier)
     # the testing context: marbles_testing(timespan) -> start / cold / hot / exp with lookup and error arguments
     for _ in range(fw.tier_scale(tier, 500, 5000)):
@@ -228,7 +239,7 @@ def _cases_units(rng, tier):
 
 
 def model_request(case):
-    c = {k: v for k, v in case.items() if k not in ("unit", "ts_form", "shift_form", "mode")}
+    c = {k: v for k, v in case.items() if k not in ("unit", "ts_form", "shift_form", "mode", "lk_kind", "sched_mode")}
     if case.get("mode") == "callback":
         c["late"] = True
     if c.get("err") is None:
@@ -237,10 +248,47 @@ def model_request(case):
 
 
 # ----- real code ------------------------------------------------------------------------------
-def _lookup(case):
+LK_KINDS = ["dict", "dict", "dict", "defaultdict_list", "counter", "missing_subclass", "mappingproxy", "userdict"]
+_CUR = {}     # the mapping object handed to the code under test in the current impl() call, and its contents before the call
+
+
+class _MissingDict(dict):
+    def __missing__(self, key):
+        return 0
+
+
+def _lookup(case, plain=False):
+    """the lookup as the mapping kind the case asks for (`plain`: always an ordinary dict, for the oracle's reference)"""
     if not case["lookup"]:
         return None
-    return {fw.dec(k) if not isinstance(fw.dec(k), list) else tuple(fw.dec(k)): fw.dec(v) for k, v in case["lookup"]}
+    d = {fw.dec(k) if not isinstance(fw.dec(k), list) else tuple(fw.dec(k)): fw.dec(v) for k, v in case["lookup"]}
+    kind = "dict" if plain else case.get("lk_kind", "dict")
+    if kind == "dict":
+        m = d
+    elif kind == "defaultdict_list":
+        import collections
+        m = collections.defaultdict(list, d)
+    elif kind == "counter":
+        import collections
+        m = collections.Counter()
+        m.update(d) if all(isinstance(v, int) and not isinstance(v, bool) for v in d.values()) else dict.update(m, d)
+    elif kind == "missing_subclass":
+        m = _MissingDict(d)
+    elif kind == "mappingproxy":
+        import types
+        m = types.MappingProxyType(d)
+    else:
+        import collections
+        m = collections.UserDict(d)
+    if not plain:
+        _CUR["obj"] = m
+        _CUR["before"] = [(repr(k), repr(v)) for k, v in m.items()]
+    return m
+
+
+def _lookup_unchanged():
+    m = _CUR.get("obj")
+    return m is None or [(repr(k), repr(v)) for k, v in m.items()] == _CUR["before"]
 
 
 def _err(case):
@@ -293,6 +341,17 @@ def _rec_json(messages, unit=1):
 
 
 def impl(case):
+    _CUR.clear()
+    out = dict(_impl(case))
+    out["lookup_unchanged"] = _lookup_unchanged()      # the caller's mapping must not be modified (not compared with the model)
+    return out
+
+
+def canon_impl(case, out):
+    return {k: v for k, v in out.items() if k != "lookup_unchanged"}
+
+
+def _impl(case):
     import reactivex
     from reactivex.observable.marbles import parse
     from reactivex.testing import TestScheduler
@@ -312,14 +371,24 @@ def impl(case):
         return {"ok": [_msg_json(t, n, exact_int=(tsf == "int" and shf == "int"), unit=unit) for t, n in msgs]}
     sched = TestScheduler()
     if op == "marbles_cold":
+        # which scheduler runs the actions: given at subscribe time, given to the operator, or BOTH — then the operator-level
+        # one (this TestScheduler) must win over the subscribe-level one (a second TestScheduler that is never started)
+        smode = case.get("sched_mode", "subscribe")
         try:
-            obs = reactivex.from_marbles(case["s"], timespan=timespan, lookup=_lookup(case), error=_err(case))
+            obs = reactivex.from_marbles(case["s"], timespan=timespan, lookup=_lookup(case), error=_err(case),
+                                         scheduler=None if smode == "subscribe" else sched)
         except ValueError as e:
             return _verr(e)
         o = sched.create_observer()
         holder = []
+        other = TestScheduler()
         sched.schedule_absolute(case["disp"] / unit, lambda s, st: holder[0].dispose() if holder else None)
-        sched.schedule_absolute(case["sub"] / unit, lambda s, st: holder.append(obs.subscribe(o, scheduler=s)))
+        if smode == "subscribe":
+            sched.schedule_absolute(case["sub"] / unit, lambda s, st: holder.append(obs.subscribe(o, scheduler=s)))
+        elif smode == "operator":
+            sched.schedule_absolute(case["sub"] / unit, lambda s, st: holder.append(obs.subscribe(o)))
+        else:
+            sched.schedule_absolute(case["sub"] / unit, lambda s, st: holder.append(obs.subscribe(o, scheduler=other)))
         sched.start()
         return {"ok": _rec_json(o.messages, unit)}
     if op == "marbles_hot":
@@ -491,7 +560,10 @@ def reference_parse(s, timespan, shift, lookup, err, raise_stopped):
 
 def oracle(case, out):
     op = case["op"]
-    lk = _lookup(case)
+    lk = _lookup(case, plain=True)
+    if not out.get("lookup_unchanged", True):
+        return f"the caller's lookup mapping ({case.get('lk_kind', 'dict')}) was modified by the call"
+    out = {k: v for k, v in out.items() if k != "lookup_unchanged"}
     if op == "marbles_ctx":
         # the context's functions mean the same diagram: exp() is the documented reading shifted to the subscription time
         # 200, and start(cold(...)) / start(hot(...)) deliver exactly those records inside the subscription window
@@ -568,6 +640,10 @@ def bucket(case, out):
         if case["lookup"] and "ok" in out["got"] and any(n[0] == "N" and any(fw.key(n[1]) == fw.key(v) for _, v in case["lookup"]) for _, n in out["got"]["ok"]):
             yield "ctx:lookup-hit"
         return
+    if case.get("lk_kind"):
+        yield "lookup-mapping:" + case["lk_kind"]
+    if case["op"] == "marbles_cold":
+        yield "cold:scheduler-" + case.get("sched_mode", "subscribe")
     if case["op"] == "marbles_hot":
         yield "hot:called-at-" + ("clock-0" if not case.get("created") else "nonzero-clock:" + case["mode"])
         if case.get("created") and case.get("shift_form") == "dt":
